@@ -15,7 +15,7 @@ import (
 	"k8s.io/apimachinery/pkg/types"
 )
 
-var c11Scenarios = []string{"first-deploy", "rolling-update", "canary-time", "canary-validate", "canary-fail", "node-churn", "setting-change"}
+var c11Scenarios = []string{"first-deploy", "rolling-update", "canary-time", "canary-validate", "canary-fail", "node-churn", "setting-change", "migration"}
 
 const c11Slices = 6
 
@@ -40,6 +40,11 @@ func genC11World(r *rand.Rand, scenario string) *World {
 	case "setting-change":
 		w.Settings = []*SettingDef{{NS: "ns1", Name: "set0", Ref: "foo", Selector: map[string]string{"zone": "a"}, Container: "main", Cpu: "500m", AgeSec: 10}}
 		w.Extra["c10"] = "1"
+	case "migration":
+		// first deployment that adopts the pods of an old DaemonSet; unrelated pods with the same
+		// labels and a same-named DaemonSet in another namespace exist
+		e.OldDS = "legacy"
+		w.Foreign = true
 	}
 	w.EDS = []*EDSDef{e}
 	w.Cfg = Config{Kubelet: true, QuiesceRounds: 10 + 6*(n+1) + 8, MapOrder: pick(r, 0, 1)}
@@ -84,7 +89,7 @@ func bodyC11(s *Sim) {
 	s.countCalls = true
 	max := s.W.Cfg.QuiesceRounds
 	scen := s.W.Extra["scenario"]
-	if scen != "first-deploy" {
+	if scen != "first-deploy" && scen != "migration" {
 		s.countCalls = scen == "never"
 		s.until(r, max, s.allConverged)
 		s.countCalls = true
@@ -108,7 +113,7 @@ func bodyC11(s *Sim) {
 		return true
 	}
 	switch scen {
-	case "first-deploy":
+	case "first-deploy", "migration":
 	case "rolling-update":
 		s.userSetTemplate(def.NS, def.Name, "B")
 	case "canary-time":
@@ -312,7 +317,7 @@ func init() {
 	register(&Profile{Name: "C11", Decide: []string{"C11"}, Level: "fault_enumeration", Quick: units * c11Slices, Thorough: units * 6 * c11Slices, Body: bodyC11, Multi: multiC11,
 		Gen:        func(r *rand.Rand, tier string, idx int) *World { return genC11World(r, c11Scenarios[0]) },
 		NonVacuous: []string{"C11.faulted-run"}, Chunk: 1, Exhaustive: true,
-		Rule: "Corpus of 7 scripted, barrier-synchronised scenarios (first deployment, rolling update, canary promoted by time, canary validated, canary failed and rolled back, node removal and addition, setting change), each over 1 (quick) or 6 (thorough) seeds that vary cluster size, configuration, node-assignment mode and schedule. For each (scenario, seed) the failure-free run is recorded; then for EVERY index k of the API calls issued by controller tasks during the scenario and every applicable fault kind (reads: rejected; writes: rejected, applied-but-reply-lost, crash before, crash after with fresh reconcilers) the same seed is re-run with that single fault, continued to quiescence, checked against all safety monitors at every step and compared with the failure-free final state. Thorough adds 40 PRNG-sampled fault pairs per slice. The space (calls x kinds) of each listed scenario/seed is enumerated completely; one evaluation = one slice of a unit."})
+		Rule: "Corpus of 8 scripted, barrier-synchronised scenarios (first deployment, rolling update, canary promoted by time, canary validated, canary failed and rolled back, node removal and addition, setting change, migration from an old DaemonSet with foreign look-alike pods), each over 1 (quick) or 6 (thorough) seeds that vary cluster size, configuration, node-assignment mode and schedule. For each (scenario, seed) the failure-free run is recorded; then for EVERY index k of the API calls issued by controller tasks during the scenario and every applicable fault kind (reads: rejected; writes: rejected, applied-but-reply-lost, crash before, crash after with fresh reconcilers) the same seed is re-run with that single fault, continued to quiescence, checked against all safety monitors at every step and compared with the failure-free final state. Thorough adds 40 PRNG-sampled fault pairs per slice. The space (calls x kinds) of each listed scenario/seed is enumerated completely; one evaluation = one slice of a unit."})
 }
 
 var _ = json.Marshal
